@@ -298,6 +298,8 @@ Aeabi == <<97, 101, 97, 98, 105>>
 Gnu == <<103, 110, 117>>
 Riscv == <<114, 105, 115, 99, 118>>
 Vx == <<120>>
+\* a private vendor name with a two-byte UTF-8 letter ("x" + U+00E9): substituted for Vx by C20's own cfgs (the name is an NTBS, lengths count bytes)
+VxAccent == <<120, 195, 169>>
 Arm7 == <<65, 82, 77, 55, 84, 68, 77, 73, 45, 83>>          \* "ARM7TDMI-S"
 Rv32i == <<114, 118, 51, 50, 105, 50, 112, 49>>               \* "rv32i2p1"
 Utf == <<195, 169, 49>>                                       \* "e-acute 1" (UTF-8)
